@@ -597,11 +597,11 @@ func c01OneCodePath(e *Env) {
 		} else {
 			ok, n := true, 0
 			for _, ret := range core.ReturnsOf(f) {
-				if k, isC := core.ConstInt(ret.Results[0]); isC && k == -1 {
+				if k, isC := core.ConstInt(core.RetVal(ret, 0)); isC && k == -1 {
 					continue
 				}
 				n++
-				if ret.Results[0] != size {
+				if core.RetVal(ret, 0) != size {
 					ok = false
 				}
 			}
@@ -636,11 +636,11 @@ func c01OneCodePath(e *Env) {
 		})
 		ok, n := cmpV != nil, 0
 		for _, ret := range core.ReturnsOf(f) {
-			if k, isC := core.ConstInt(ret.Results[0]); isC && k == -1 {
+			if k, isC := core.ConstInt(core.RetVal(ret, 0)); isC && k == -1 {
 				continue
 			}
 			n++
-			if ret.Results[0] != cmpV {
+			if core.RetVal(ret, 0) != cmpV {
 				ok = false
 			}
 		}
